@@ -35,6 +35,7 @@ Fees == {}
 SendFrom == {}
 WithRotate == TRUE
 LimitSets == {}
+WithUpgradeRev == TRUE
 LimWhere == {}
 INSTANCE XIBC
 
